@@ -101,6 +101,7 @@ def check(run: Run, prog: Program, model: Model, tier: str) -> None:
         "That the composed string fully matches is not decided."
         " The opcode and category dispatchers are evaluated on every constant of the sre universe; a negated class excludes every alphabet letter of each range and its candidate set depends on every member.")
     run.explanation += ' OPEN-SENTINEL: the comparands of the open-bound test are resolved in re._constants and must all equal MAXREPEAT (an opcode constant is a small int and a legal explicit bound). VALIDATOR-PATTERN: the validator raises the regex error iff re.search(props.pattern, value) is None; a searched pattern obtained by removing characters of the regex source is a violation, one built around the declared pattern is undecided.'
+    run.explanation += ' DRAW-NONEMPTY: every random.choice operand reached from visit_str{pattern} and from each _generate_* handler run on a symbolic node is a non-empty constant, a parse-tree component, or established non-empty on the path.'
     run.rule_text = ("one obligation per opcode / category of the universe, per handler child flow, per alphabet, per draw; "
                      "non-trivial = needed abstract evaluation of a handler or constant folding")
     run.trusted += ["sre parse-tree node shapes: SUBPATTERN(group, add, del, p), BRANCH(None, [p..]), MAX/MIN_REPEAT(min, max, p), "
@@ -294,7 +295,33 @@ def _draw_nonempty(run: Run, prog: Program, model: Model) -> None:
     from ..partial import draw_nonempty
     from ..visits import Config, run_visit
     seen: Dict[str, Tuple[str, str, str]] = {}
-    for p in run_visit(prog, model, "Generator", "visit_str", Config(("pattern",)), None, unroll=1, max_depth=9):
+    cls = prog.cls("generation._regex_generator.RegexGenerator")
+    allpaths: List[Path] = []
+    # ... and every handler on its own with a symbolic node (a dispatch through a table of method names cannot be followed
+    # from a symbolic opcode, the handlers can still be evaluated one by one)
+    for name in sorted(cls.methods):
+        if name.startswith("_generate") and name not in ("_generate",):
+            f_ = cls.methods[name]
+            params = [a.arg for a in f_.node.args.posonlyargs + f_.node.args.args if a.arg != "self"]
+            it_ = Interp(prog, model, unroll=1)
+
+            def run_h(i: Interp, f_: Any = f_, params: Any = params) -> V:
+                g = make_visitor(i, "Generator")
+                rg = g.attrs.get("_regex_generator")
+                assert isinstance(rg, Inst)
+                al = rg.attrs.get("_alphabet")
+                if isinstance(al, DictV):
+                    # a two-letter `letters` alphabet keeps a per-letter case analysis small (non-emptiness of the
+                    # candidate set does not depend on how many letters there are)
+                    al2 = DictV(list(al.items))
+                    al2.store(Const("letters"), Const("ab"))
+                    rg = Inst(rg.cls, dict(rg.attrs, _alphabet=al2), rg.origin)
+                return i.call_function(f_, [Sym(f"node.{p_}", None, ("node", p_)) for p_ in params], {}, self_val=rg)
+            try:
+                allpaths += it_.run_paths(run_h, max_paths=600)
+            except Exception:
+                pass
+    for p in allpaths:
         for e in p.events:
             if e.kind != "partial" or e.data.get("op") != "random.choice" or not e.data.get("operands"):
                 continue
@@ -308,7 +335,8 @@ def _draw_nonempty(run: Run, prog: Program, model: Model) -> None:
             if ne is True:
                 c = f"RegexGenerator.{caller}: draw from {'a constant alphabet' if isinstance(seq, Const) else k[:40]}"
                 seen.setdefault(c, ("HOLDS", site, "non-empty"))
-            elif ("parse" in k) and not any(m in k for m in ("bin(-", "bin(&", "difference", "set(")):
+            elif ("parse" in k or re.search(r"\bnode\b", k)) and not any(
+                    m in k for m in ("bin(-", "bin(&", "difference", "set(")):
                 c = f"RegexGenerator.{caller}: draw from a component of the parse tree"
                 seen.setdefault(c, ("HOLDS", site, "a class / an alternation has at least one member (parser contract)"))
             else:
